@@ -286,6 +286,40 @@ func c12Negatives() []*RejectCase {
 			out = append(out, &RejectCase{P: b.P, Class: c.class, Cell: cell})
 		}
 	}
+	// a field promoted from an embedded struct is not a field of the outer struct
+	for _, viaFields := range []bool{false, true} {
+		for _, embPtr := range []bool{false, true} {
+			id := fmt.Sprintf("fn_promoted_%v_%v", viaFields, embPtr)
+			b := NewPB(id, "app")
+			x := b.Carrier(0, "XT")
+			fx := b.Func(0, "NewXT", x, false, false)
+			fx.Stub = true
+			emb := b.NamedOf(0, "Emb", StructOf(FieldT{Name: "X", Ty: x}), "none")
+			var et *Ty = emb
+			if embPtr {
+				et = PtrTo(emb)
+			}
+			own := b.Carrier(0, "OwnT")
+			fo := b.Func(0, "NewOwnT", own, false, false)
+			fo.Stub = true
+			outer := b.NamedOf(0, "Outer", StructOf(FieldT{Name: "Own", Ty: own}, FieldT{Embedded: true, Ty: et}), "none")
+			var build []Ref
+			var res *Ty
+			if viaFields {
+				pf := b.Func(0, "NewOuter", outer, false, false)
+				pf.Stub = true
+				build = []Ref{ItemRef(pf.ID), ItemRef(b.Fields(outer, "X").ID)}
+				res = x
+			} else {
+				build = []Ref{ItemRef(fx.ID), ItemRef(fo.ID), ItemRef(b.Struct(outer, false, "Own", "X").ID)}
+				res = outer
+			}
+			b.Inj("Init", res, false, false, nil, build...)
+			cell := fmt.Sprintf("negative:promoted-field/fieldsof=%v/embedded-pointer=%v", viaFields, embPtr)
+			b.P.Note = cell
+			out = append(out, &RejectCase{P: b.P, Class: "bad-field", Cell: cell})
+		}
+	}
 	return out
 }
 
